@@ -142,7 +142,7 @@ def same_tokens(a, b) -> z3.BoolRef:
 # ---------------------------------------------------------------------------------------------
 def lib_tokenizer(s, file_mode: bool):
     import pddl_plus_parser.lisp_parsers.pddl_tokenizer as pt
-    pt.re = _REX
+    rex.install(pt, _REX)
     if file_mode:
         files = {"/sym/input.pddl": s}
         pt.open = text.make_open(files)
@@ -160,7 +160,7 @@ def concrete_lib(textv: str, file_mode: bool, what: str):
     """the real library, no shims"""
     import re as real_re
     import pddl_plus_parser.lisp_parsers.pddl_tokenizer as pt
-    pt.re = real_re
+    rex.uninstall(pt)
     try:
         if file_mode:
             p = lib.write_tmp("", ".pddl")
@@ -175,7 +175,7 @@ def concrete_lib(textv: str, file_mode: bool, what: str):
     except Exception as e:  # noqa
         return ("exc", f"{type(e).__name__}: {e}")
     finally:
-        pt.re = _REX
+        rex.install(pt, _REX)
 
 
 def concrete_ref(textv: str, file_mode: bool, what: str):
